@@ -17,6 +17,14 @@ Theorem C17_pause_bounds :
 Proof. exact generic_retry_bounds. Qed.
 Print Assumptions C17_pause_bounds.
 
+(* the bounds are meant for MinWait <= MaxWait; for an ill-formed policy (MinWait > MaxWait)
+   the code as written yields MaxWait for every pause *)
+Theorem C17_pause_min_gt_max :
+  forall (p : policy) (attempt : Z) (o : outcome) (d : Z),
+    p_max p < p_min p -> generic_retry p attempt o = DWait d -> d = p_max p.
+Proof. exact generic_retry_min_gt_max. Qed.
+Print Assumptions C17_pause_min_gt_max.
+
 (* ... hence every pause the transport actually makes, for every script, body,
    cancellation and policy *)
 Theorem C17_trace_pauses :
@@ -69,6 +77,20 @@ Theorem C17_nonretryable_at_once :
               round_trip p cn bd st sc t = mkOut r st1 sc' t1 [EAttempt t got].
 Proof. exact round_trip_nonretryable. Qed.
 Print Assumptions C17_nonretryable_at_once.
+
+(* ... on the whole trace (no cancellation): every answer but the last was retryable for the
+   policy's predicate, and the call returns the last answer (or the predicate's error for it,
+   or the backoff's panic) *)
+Theorem C17_stops_at_first_nonretryable :
+  forall p bd st sc t,
+    let out := round_trip p None bd st sc t in
+    let n := length (attempts (o_trace out)) in
+    (forall i, (S i < n)%nat -> p_pred p (b_out (nth i sc default_beh)) = PRetry) /\
+    (1 <= n)%nat /\
+    (o_res out = result_of_outcome (last_answer sc n) \/ o_res out = fail_result (last_answer sc n) \/
+     o_res out = RPanic).
+Proof. exact round_trip_stops_at_first_nonretryable. Qed.
+Print Assumptions C17_stops_at_first_nonretryable.
 
 (* --- bodies ---------------------------------------------------------------- *)
 
@@ -148,11 +170,11 @@ Print Assumptions C17_manifest_push_buffered.
    an ordinary request of the auth client): every request of the PUT carries the blob as far
    as the registry reads it, at the script position after the POST's requests *)
 Theorem C17_blob_push_bodies :
-  forall authc p cn bd sc,
+  forall authc warm0 p cn bd sc,
     wf_body bd ->
-    match u_put (blob_push authc p cn bd sc) with
+    match u_put (blob_push_gen authc warm0 p cn bd sc) with
     | Some put => forall i t got, nth_error (auth_attempts put) i = Some (t, got) ->
-        got = received bd (nth (length (auth_attempts (u_post (blob_push authc p cn bd sc))) + i) sc default_beh)
+        got = received bd (nth (length (auth_attempts (u_post (blob_push_gen authc warm0 p cn bd sc))) + i) sc default_beh)
     | None => True
     end.
 Proof. exact blob_push_bodies. Qed.
@@ -160,9 +182,9 @@ Print Assumptions C17_blob_push_bodies.
 
 (* a one-shot blob reaches the registry in exactly one request of the PUT *)
 Theorem C17_blob_push_oneshot_once :
-  forall authc p cn bd sc,
+  forall authc warm0 p cn bd sc,
     (forall st', rewind bd st' = RwNoGetBody \/ rewind bd st' = RwGetBodyErr) ->
-    match u_put (blob_push authc p cn bd sc) with
+    match u_put (blob_push_gen authc warm0 p cn bd sc) with
     | Some put => length (auth_attempts put) = 1%nat
     | None => True
     end.
@@ -171,30 +193,55 @@ Print Assumptions C17_blob_push_oneshot_once.
 
 (* --- cancellation -------------------------------------------------------------- *)
 
-(* context ending at tc: no attempt starts after tc, the call is over at tc, and a
-   pause the context ends in (start <= tc < start + d) ends the call with the
-   context's error at tc *)
+(* context ending at tc, call started at t -- no hypothesis on the policy (MinWait = 0 and zero
+   backoff included), on t (the context may be over from the start) or on the script:
+   every attempt but the first starts strictly before tc; the call is over at max(t, tc); a
+   pause that the context ends in, or that begins after it ended, ends the call with the
+   context's error at that instant; a context that is over at the start allows one attempt *)
 Theorem C17_cancel :
   forall p bd st sc t tc dl,
-    t <= tc ->
     let out := round_trip p (Some (tc, dl)) bd st sc t in
-    Forall (fun a => fst a <= tc) (attempts (o_trace out)) /\
-    o_time out <= tc /\
-    Forall (fun pd => fst pd <= tc /\
-                      (fst pd + snd pd <= tc \/ (o_res out = RCtx /\ o_time out = tc)))
-           (pauses (o_trace out)).
+    Forall (fun a => fst a < tc) (tl (attempts (o_trace out))) /\
+    o_time out <= Z.max t tc /\
+    Forall (fun pd => fst pd + snd pd < tc \/ (o_res out = RCtx /\ o_time out = Z.max (fst pd) tc))
+           (pauses (o_trace out)) /\
+    (tc <= t -> length (attempts (o_trace out)) = 1%nat).
 Proof. exact round_trip_cancel. Qed.
 Print Assumptions C17_cancel.
 
-(* the same through the auth client, over all of its sends *)
+(* the select of the source as it was (defect, fixed): a pause ending at an instant at which
+   the context had ended could let the loop go on *)
+Theorem C17_cancel_zero_pause_prefix_refuted :
+  exists cn x, ended_at cn x = true /\ pause_cancelled_gen false cn x = false.
+Proof. exact pause_cancelled_prefix_refuted. Qed.
+Print Assumptions C17_cancel_zero_pause_prefix_refuted.
+
+(* the same through the auth client, over all of its sends: the call ends with the context's
+   error at the instant the context ends in a pause of any send *)
 Theorem C17_cancel_auth :
   forall warm p bd sc tc dl,
-    0 <= tc ->
     let a := auth_do warm p (Some (tc, dl)) bd sc in
-    Forall (fun x => fst x <= tc) (attempts (a_first a) ++ attempts (a_second a) ++ attempts (a_third a)) /\
-    a_time a <= tc.
+    Forall (fun x => fst x < tc) (tl (attempts (a_first a))) /\
+    Forall (fun x => fst x < tc) (tl (attempts (a_second a))) /\
+    Forall (fun x => fst x < tc) (tl (attempts (a_third a))) /\
+    a_time a <= Z.max 0 tc /\
+    Forall (fun pd => fst pd + snd pd < tc \/ (a_res a = RCtx /\ a_time a = Z.max (fst pd) tc))
+           (all_pauses a).
 Proof. exact auth_do_cancel. Qed.
 Print Assumptions C17_cancel_auth.
+
+(* ... and through a blob push (POST, then PUT) *)
+Theorem C17_cancel_blob_push :
+  forall authc warm0 p bd sc tc dl,
+    let u := blob_push_gen authc warm0 p (Some (tc, dl)) bd sc in
+    sends_cancel_post tc 0 (u_res u) (u_time u) (u_post u) /\
+    u_time u <= Z.max 0 tc /\
+    match u_put u with
+    | Some put => exists t1, t1 <= Z.max 0 tc /\ sends_cancel_post tc t1 (u_res u) (u_time u) put
+    | None => True
+    end.
+Proof. exact blob_push_cancel. Qed.
+Print Assumptions C17_cancel_blob_push.
 
 (* --- totality of the backoff (F7) ------------------------------------------------- *)
 
@@ -219,6 +266,13 @@ Theorem C17_no_panic :
     o_res (round_trip p cn bd st sc t) <> RPanic /\ o_res (round_trip p cn bd st sc t) <> RFuel.
 Proof. exact round_trip_no_panic_no_fuel. Qed.
 Print Assumptions C17_no_panic.
+
+(* the loop of the model terminates by itself: the fuel artefact is unreachable for every
+   policy (so the attempt bound of C17_attempts is not an effect of the fuel) *)
+Theorem C17_no_fuel :
+  forall p cn bd st sc t, o_res (round_trip p cn bd st sc t) <> RFuel.
+Proof. exact round_trip_no_fuel. Qed.
+Print Assumptions C17_no_fuel.
 
 Theorem C17_default_policy_never_panics :
   forall oob rnd a o, p_backoff (default_policy oob rnd) a o <> BPanic.
@@ -269,7 +323,7 @@ Definition ex_script :=
   [mkBeh (OStatus 503 [] 0%N) None 10; mkBeh (OErr true true false) (Some 3%nat) 20; mkBeh (OStatus 200 [] 0%N) None 4].
 
 Example ex_wf : wf_body ex_body.
-Proof. discriminate. Qed.
+Proof. intros [H|H]; discriminate. Qed.
 
 (* two retries, pauses clamped to 100 and 1000, the whole body on attempts 1 and 3,
    the three bytes the server read on attempt 2 *)
@@ -279,6 +333,15 @@ Example ex_run :
   o_trace out = [EAttempt 0 (b "manifest"); EPause 10 100; EAttempt 110 (b "man"); EPause 130 1000;
                  EAttempt 1130 (b "manifest")].
 Proof. vm_compute. split; reflexivity. Qed.
+
+(* zero-length pauses and a deadline that passes while the server is busy: the call ends with
+   the context's error after that attempt *)
+Example ex_cancel_zero_pause :
+  let p := table_policy default_predicate 5 0 1000 [] 0 in
+  let out := round_trip p (Some (5, true)) ex_body (init_state ex_body)
+                        [mkBeh (OStatus 503 [] 0%N) None 10; mkBeh (OStatus 503 [] 0%N) None 10] 0 in
+  o_res out = RCtx /\ o_time out = 5 /\ length (attempts (o_trace out)) = 1%nat.
+Proof. vm_compute. repeat split; reflexivity. Qed.
 
 (* cancelled in the second pause *)
 Example ex_cancel :
@@ -335,6 +398,16 @@ Example ex_blob_push :
   u_res u = RResp 201 0%N /\
   match u_put u with Some put => map snd (auth_attempts put) = [b "manifest"; b "manifest"] | None => False end.
 Proof. vm_compute. split; reflexivity. Qed.
+
+(* http.NoBody without GetBody: the transport does not retry it (one attempt, the 503 comes
+   back), the auth client does re-send it after a challenge *)
+Example ex_nobody :
+  let bd := mkBody KNoBody [] in
+  length (attempts (o_trace (round_trip ex_policy None bd (init_state bd)
+                                        [mkBeh (OStatus 503 [] 0%N) None 0] 0))) = 1%nat /\
+  let a := auth_do false ex_policy None bd [mkBeh (OStatus 401 [] 1%N) None 0; mkBeh (OStatus 200 [] 0%N) None 0] in
+  a_res a = RResp 200 0%N /\ length (attempts (a_second a)) = 1%nat.
+Proof. vm_compute. repeat split; reflexivity. Qed.
 
 (* Retry-After: 2 within [100ns, 3s]: honoured *)
 Example ex_retry_after :
